@@ -26,6 +26,13 @@ import (
 	"io"
 )
 
+// maxSessionTicketLen is the length of the largest session ticket a server
+// issues. A ticket holds the client's certificate chain and has to travel in
+// the session ticket extension of a later ClientHello, which readHandshake
+// limits to maxHandshake bytes together with everything else the client sends
+// in it (and the NewSessionTicket message encodes the ticket length in 16 bits).
+const maxSessionTicketLen = 1 << 14
+
 // sessionState contains the information that is serialized into a session
 // ticket in order to later resume a connection.
 type sessionState struct {
@@ -140,8 +147,15 @@ func (s *sessionState) unmarshal(data []byte) bool {
 	return len(data) == 0
 }
 
+// encryptTicket returns the session ticket for state. If the ticket would be
+// longer than maxSessionTicketLen it returns no ticket and no error: the
+// NewSessionTicket message then carries the zero-length ticket of RFC 5077,
+// section 3.3, which the client does not store.
 func (c *Conn) encryptTicket(state *sessionState) ([]byte, error) {
 	serialized := state.marshal()
+	if ticketKeyNameLen+aes.BlockSize+len(serialized)+sha256.Size > maxSessionTicketLen {
+		return nil, nil
+	}
 	encrypted := make([]byte, ticketKeyNameLen+aes.BlockSize+len(serialized)+sha256.Size)
 	keyName := encrypted[:ticketKeyNameLen]
 	iv := encrypted[ticketKeyNameLen : ticketKeyNameLen+aes.BlockSize]
